@@ -75,9 +75,15 @@ func (s *kState) FindView(h uint64, r uint32, reason string) (*tmconsensus.Versi
 		if r < cr {
 			return nil, 0, ViewBeforeCommitting
 		}
+
+		// A later round at the committing height:
+		// the height has already been decided in round cr.
+		return nil, 0, ViewWrongCommit
 	}
 
-	if h < s.Committing.Height {
+	if h < s.Voting.Height {
+		// Earlier than the committing height,
+		// or earlier than the voting height when nothing has been committed yet.
 		return nil, 0, ViewBeforeCommitting
 	}
 
